@@ -9,6 +9,8 @@ import (
 	"strings"
 	"time"
 
+	"github.com/mithrandie/csvq/lib/value"
+
 	"verifharness/internal/core"
 	"verifharness/internal/sut"
 )
@@ -28,15 +30,25 @@ func init() {
 			Setup: txnSetup, Exec: txnExec, Random: nil, Sig: txnSig, Assume: assume, MCWorkers: 12,
 		}
 	}
-	c05 := mk("C05", []string{"cells are small integers and NULL; statement forms: INSERT (1 and 2 rows, wrong length), UPDATE/DELETE with and without WHERE, REPLACE on one key column, ADD/DROP/RENAME column, on file tables and a temporary table; INSERT..SELECT, column lists, UPDATE..FROM join, multi-assignment UPDATE, ADD FIRST / DEFAULT expression, CREATE TABLE AS SELECT, SET ENCODING, inserts made by user-defined functions"}, "TxnGen_create.cfg", "TxnGen_temp.cfg", "TxnGen_two.cfg")
+	c05 := mk("C05", []string{"cells are small integers and NULL; statement forms: INSERT (1 and 2 rows, wrong length), UPDATE/DELETE with and without WHERE, REPLACE on one key column, ADD/DROP/RENAME column, on file tables and a temporary table; INSERT..SELECT, column lists, UPDATE..FROM join, multi-assignment UPDATE, ADD FIRST / DEFAULT expression, CREATE TABLE AS SELECT, SET ENCODING, inserts made by user-defined functions"}, "TxnGen_create.cfg", "TxnGen_temp.cfg", "TxnGen_two.cfg", "TxnGen_typed.cfg")
 	c05.Random = func(r *core.Run, k int) (Action, []Action) { return txnRandom(r, k, "dml") }
-	c08 := mk("C08", []string{"failure causes modelled: division by zero at one row of a multi-row UPDATE, wrong row length, unknown field after RENAME/DROP, duplicate column, existing file, missing file, failing DEFAULT expression, ambiguous join update, CREATE TABLE AS SELECT with wrong names / failing query, COMMIT that cannot encode a changed file, one UPDATE of two tables failing in the second"}, "TxnGen_create.cfg", "TxnGen_commitfail.cfg", "TxnGen_temp.cfg", "TxnGen_two.cfg")
+	c08 := mk("C08", []string{"failure causes modelled: division by zero at one row of a multi-row UPDATE, wrong row length, unknown field after RENAME/DROP, duplicate column, existing file, missing file, failing DEFAULT expression, ambiguous join update, CREATE TABLE AS SELECT with wrong names / failing query, COMMIT that cannot encode a changed file, one UPDATE of two tables failing in the second"}, "TxnGen_create.cfg", "TxnGen_commitfail.cfg", "TxnGen_temp.cfg", "TxnGen_two.cfg", "TxnGen_typed.cfg")
 	c08.Random = func(r *core.Run, k int) (Action, []Action) { return txnRandom(r, k, "fail") }
 	c20 := mk("C20", []string{"the environment is a second real csvq transaction in the same OS process with a 50 ms wait timeout; reads by identifier, sub-query, aggregate and table function (f2 carries a byte order mark)"}, "TxnGen_reads.cfg")
 	c20.Random = func(r *core.Run, k int) (Action, []Action) { return txnRandom(r, k, "env") }
-	Registry["C05"] = &Check{Level: "model_checking", Run: func(r *core.Run) { runActionCheck(r, c05) }}
-	Registry["C08"] = &Check{Level: "model_checking", Run: func(r *core.Run) { runActionCheck(r, c08) }}
-	Registry["C20"] = &Check{Level: "model_checking", Run: func(r *core.Run) { runActionCheck(r, c20) }}
+	// the poison switch of lib/value (build tag verif): a value handed back to the pool is never re-issued but marked, so
+	// that a table cell which some statement discarded shows at the next read instead of when the pool happens to recycle it
+	poisoned := func(sp *ActionSpec) func(r *core.Run) {
+		return func(r *core.Run) {
+			value.VerifPoison = true
+			defer func() { value.VerifPoison = false }()
+			r.Assume = append(r.Assume, "the real code runs with the poison switch of lib/value (build tag verif): Discard marks the object instead of re-issuing it")
+			runActionCheck(r, sp)
+		}
+	}
+	Registry["C05"] = &Check{Level: "model_checking", Run: poisoned(c05)}
+	Registry["C08"] = &Check{Level: "model_checking", Run: poisoned(c08)}
+	Registry["C20"] = &Check{Level: "model_checking", Run: poisoned(c20)}
 	Registry["C01"] = &Check{Level: "model_checking", Run: runC01}
 }
 
@@ -49,11 +61,18 @@ type jtable struct {
 // cellH is the specification's H: a text that is not a number and that Shift_JIS cannot spell
 const cellH = 777
 const textH = "\ud55c"
+
+// cellD is the specification's D: the datetime 2012-02-03 00:00:00 (UTC), as a value or as the text csvq writes for it
+const cellD = 888
+const textD = "2012-02-03T00:00:00Z"
 const bom = "\ufeff"
 
 func showCell(s string) string {
 	if s == textH {
 		return "H"
+	}
+	if s == textD {
+		return "D"
 	}
 	return s
 }
@@ -77,6 +96,8 @@ func tableCSV(t jtable) string {
 			}
 			if c == cellH {
 				b.WriteString(textH)
+			} else if c == cellD {
+				b.WriteString(textD)
 			} else if c != -1 {
 				fmt.Fprintf(&b, "%d", c)
 			}
@@ -214,6 +235,17 @@ func txnSQL(a Action) string {
 		return fmt.Sprintf("INSERT INTO %s VALUES (%d, '%s');", t, k, textH)
 	case "selectfn":
 		return "SELECT * FROM CSV(',', " + t + ", 'UTF8');"
+	case "insertd":
+		return fmt.Sprintf("INSERT INTO %s VALUES (%d, DATETIME('2012-02-03 00:00:00'));", t, k)
+	case "deleted":
+		return fmt.Sprintf("DELETE FROM %s WHERE v = DATETIME('2012-02-03 00:00:00');", t)
+	case "selectd":
+		return fmt.Sprintf("SELECT COUNT(*) AS n FROM %s WHERE v <= DATETIME('2012-02-03 00:00:00');", t)
+	case "insertsub":
+		if x == 1 {
+			return fmt.Sprintf("INSERT INTO %s VALUES (%d, (SELECT v FROM %s LIMIT 1)), (%d);", t, k, tname(aStr(a, "u")), k+1)
+		}
+		return fmt.Sprintf("INSERT INTO %s VALUES (%d, (SELECT v FROM %s LIMIT 1));", t, k, tname(aStr(a, "u")))
 	case "selectinline":
 		return "SELECT * FROM CSV_INLINE(',', " + t + ");"
 	case "setenc":
@@ -320,6 +352,13 @@ func txnExec(p *sut.Proc, a Action) Out {
 			return Out{K: "val", Vals: []string{"no-count-reported:" + strings.TrimSpace(r.Out)}}
 		}
 		return Out{K: "val", Vals: []string{n}}
+	case "selectd":
+		r := p.Exec(txnSQL(a))
+		if r.Err != "" {
+			return Out{K: "err", E: errClass(r), Vals: []string{}}
+		}
+		v := showTable(r.Out)
+		return Out{K: "val", Vals: v[len(v)-1:]}
 	case "selectagg":
 		r := p.Exec(txnSQL(a))
 		if r.Err != "" {
@@ -495,6 +534,15 @@ func txnRandom(r *core.Run, hk int, flavour string) (Action, []Action) {
 					k = 0
 				}
 				acts = append(acts, txnA("updateswap", t, k, 0))
+			}
+		case x < 4:
+			switch rng.Intn(4) {
+			case 0:
+				acts = append(acts, txnA("insertd", t, key(), 0))
+			case 1:
+				acts = append(acts, txnA([]string{"deleted", "selectd"}[rng.Intn(2)], t, 0, 0))
+			default:
+				acts = append(acts, Action{"act": "insertsub", "t": t, "u": []string{"f1", "f2", "tt"}[rng.Intn(3)], "k": key(), "x": rng.Intn(2)})
 			}
 		case x < 6:
 			if t != "tt" && rng.Intn(3) == 0 {
